@@ -409,3 +409,157 @@ def expect_locals(mod: Module, fn: ast.AST, names, why: str = ''):
     missing = [n for n in names if n not in have]
     if missing:
         raise Unresolved(f'{mod.relpath}:{qualname(fn)}: local name(s) {missing} that the rules refer to are no longer bound here{(" (" + why + ")") if why else ""}; the checker needs re-anchoring')
+
+
+# ------------------------------------------------------------------------------------------------ loop independence
+class _DefUse:
+    """Definite-assignment walk of one loop iteration in evaluation order: which names that the loop body itself binds are read at a point
+    where this iteration has not (definitely) bound them yet - such a read sees the value a previous iteration (or the code before the loop) left."""
+
+    def __init__(self, watched):
+        self.watched = set(watched)
+        self.carried = []     # (name, node)
+
+    def expr(self, e, A):
+        if e is None:
+            return A
+        if isinstance(e, ast.Name):
+            if isinstance(e.ctx, ast.Load) and e.id in self.watched and e.id not in A:
+                self.carried.append((e.id, e))
+            return A
+        if isinstance(e, ast.NamedExpr):
+            A = self.expr(e.value, A)
+            return A | {e.target.id}
+        if isinstance(e, ast.IfExp):
+            A = self.expr(e.test, A)
+            return self.expr(e.body, A) & self.expr(e.orelse, A)
+        if isinstance(e, ast.BoolOp):
+            A = self.expr(e.values[0], A)
+            B = A
+            for v in e.values[1:]:
+                B = self.expr(v, B)
+            return A
+        if isinstance(e, (ast.ListComp, ast.SetComp, ast.GeneratorExp, ast.DictComp)):
+            inner = {n.id for g in e.generators for n in ast.walk(g.target) if isinstance(n, ast.Name)}
+            sub = _DefUse(self.watched - inner)
+            B = set(A)
+            for g in e.generators:
+                B = sub.expr(g.iter, B)
+                for c in g.ifs:
+                    sub.expr(c, B)
+            for part in ([e.key, e.value] if isinstance(e, ast.DictComp) else [e.elt]):
+                sub.expr(part, B)
+            self.carried += sub.carried
+            return A
+        if isinstance(e, ast.Lambda):
+            params = {a.arg for a in e.args.args + e.args.kwonlyargs + e.args.posonlyargs} | ({e.args.vararg.arg} if e.args.vararg else set()) | ({e.args.kwarg.arg} if e.args.kwarg else set())
+            sub = _DefUse(self.watched - params)
+            sub.expr(e.body, set(A))
+            self.carried += sub.carried
+            return A
+        for c in ast.iter_child_nodes(e):
+            if isinstance(c, ast.expr):
+                A = self.expr(c, A)
+            elif isinstance(c, (ast.keyword,)):
+                A = self.expr(c.value, A)
+            elif isinstance(c, ast.comprehension):
+                pass
+        return A
+
+    def target(self, t, A):
+        if isinstance(t, ast.Name):
+            return A | {t.id}
+        if isinstance(t, (ast.Tuple, ast.List)):
+            for x in t.elts:
+                A = self.target(x, A)
+            return A
+        if isinstance(t, ast.Starred):
+            return self.target(t.value, A)
+        return self.expr(t, A)       # attribute / subscript store: the base is read
+
+    def block(self, stmts, A):
+        """-> definitely-assigned set after the block, or None when the block never falls through"""
+        for s in stmts:
+            A = self.stmt(s, A)
+            if A is None:
+                return None
+        return A
+
+    def stmt(self, s, A):
+        if isinstance(s, ast.Assign):
+            A = self.expr(s.value, A)
+            for t in s.targets:
+                A = self.target(t, A)
+            return A
+        if isinstance(s, ast.AnnAssign):
+            A = self.expr(s.value, A)
+            return self.target(s.target, A) if s.value is not None else A
+        if isinstance(s, ast.AugAssign):
+            A = self.expr(s.value, A)
+            if isinstance(s.target, ast.Name):
+                if s.target.id in self.watched and s.target.id not in A:
+                    self.carried.append((s.target.id, s.target))
+                return A | {s.target.id}
+            return self.expr(s.target, A)
+        if isinstance(s, (ast.Expr, ast.Return)):
+            A = self.expr(s.value, A)
+            return None if isinstance(s, ast.Return) else A
+        if isinstance(s, ast.Raise):
+            self.expr(s.exc, A)
+            return None
+        if isinstance(s, (ast.Continue, ast.Break)):
+            return None
+        if isinstance(s, ast.If):
+            A = self.expr(s.test, A)
+            b, o = self.block(s.body, set(A)), self.block(s.orelse, set(A))
+            if b is None:
+                return o
+            if o is None:
+                return b
+            return b & o
+        if isinstance(s, (ast.For, ast.While)):
+            if isinstance(s, ast.For):
+                A = self.expr(s.iter, A)
+                self.block(s.body, self.target(s.target, set(A)))
+            else:
+                A = self.expr(s.test, A)
+                self.block(s.body, set(A))
+            self.block(s.orelse, set(A))
+            return A
+        if isinstance(s, ast.Try):
+            self.block(s.body, set(A))
+            for h in s.handlers:
+                self.block(h.body, set(A) | ({h.name} if h.name else set()))
+            self.block(s.orelse, set(A))
+            f = self.block(s.finalbody, set(A))
+            return A if f is not None else None
+        if isinstance(s, ast.With):
+            for it in s.items:
+                A = self.expr(it.context_expr, A)
+                if it.optional_vars is not None:
+                    A = self.target(it.optional_vars, A)
+            return self.block(s.body, A)
+        if isinstance(s, (ast.FunctionDef, ast.AsyncFunctionDef, ast.ClassDef)):
+            return A | {s.name}
+        if isinstance(s, ast.Assert):
+            self.expr(s.test, A)
+            return A
+        if isinstance(s, ast.Delete):
+            return A
+        if isinstance(s, (ast.Pass, ast.Global, ast.Nonlocal, ast.Import, ast.ImportFrom)):
+            return A
+        raise Unresolved(f'loop independence: statement kind {type(s).__name__} at line {s.lineno}')
+
+
+def loop_carried(loop: ast.For) -> list[tuple[str, ast.AST]]:
+    """Names bound by the body of `loop` that some iteration reads before it has bound them itself: [(name, reading node)]."""
+    stored = set()
+    for n in ast.walk(loop):
+        if n is loop:
+            continue
+        if isinstance(n, ast.Name) and isinstance(n.ctx, ast.Store):
+            stored.add(n.id)
+    du = _DefUse(stored)
+    A = du.target(loop.target, set())
+    du.block(loop.body, A)
+    return du.carried
